@@ -75,6 +75,58 @@ fn panic_class(m: &str) -> String {
     format!("{file}: {class}")
 }
 
+/// The real lexer's token stream (comments dropped), encoded like `encTok` in the driver, and
+/// the first error it records other than the two bracket-matching errors (those come from the
+/// pre-pass `Lexer::build`, which the token-level model does not have).
+fn real_lex(src: &str) -> (Vec<i64>, Option<String>) {
+    use bwl::lexer::TokenValue as T;
+    let errs: bwl::ErrorAccumulator = Default::default();
+    let lexer = bwl::lexer::Lexer::new(src, errs.clone());
+    let mut out: Vec<i64> = vec![];
+    let enc_str = |out: &mut Vec<i64>, s: &str| {
+        out.push(s.chars().count() as i64);
+        out.extend(s.chars().map(|c| c as i64));
+    };
+    for t in lexer {
+        match &t.value {
+            T::Comment => {}
+            T::Keyword => {
+                out.push(0);
+                enc_str(&mut out, &format!("{}", t.source));
+            }
+            T::RoundOpen { .. } => out.push(1),
+            T::RoundClose => out.push(2),
+            T::SquareOpen { .. } => out.push(3),
+            T::SquareClose => out.push(4),
+            T::Comma => out.push(5),
+            T::Equal => out.push(6),
+            T::String(s) => {
+                out.push(7);
+                enc_str(&mut out, s);
+            }
+            T::Integer(n) => out.extend([8, *n as i64]),
+            T::Scaled(s) => out.extend([9, s.0 as i64]),
+            T::InfiniteGlue(s, o) => out.extend([
+                10,
+                s.0 as i64,
+                match o {
+                    common::GlueOrder::Normal => 0,
+                    common::GlueOrder::Fil => 1,
+                    common::GlueOrder::Fill => 2,
+                    common::GlueOrder::Filll => 3,
+                },
+            ]),
+        }
+    }
+    let first = match errs.check() {
+        Ok(()) => None,
+        Err(v) => err_variants_in(src, &v)
+            .into_iter()
+            .find(|n| n != "UnmatchedOpeningBracket" && n != "MismatchedBraces"),
+    };
+    (out, first)
+}
+
 fn print_h(list: &[ds::Horizontal], style: u32) -> String {
     let mut s = String::new();
     if style == 1 {
@@ -258,7 +310,42 @@ impl C18 {
             Ok(t) => cps(t),
             Err(_) => "-".into(),
         };
-        let reply = drv.ask(&format!("rt {mname} {style} | {} | {}", join(&req), text_sec));
+        // Which characters `char::escape_debug` (std) leaves unescaped: printable ASCII and
+        // the characters of this case. The model takes this as its parameter `raw`.
+        let mut raw: Vec<i64> = vec![];
+        {
+            let mut cands: Vec<u32> = (0x20..0x7f).collect();
+            fn chars_of(l: &[N], out: &mut Vec<u32>) {
+                for n in l {
+                    match n {
+                        N::Char(c, _) => out.push(*c),
+                        N::Lig { c, orig, .. } => {
+                            out.push(*c);
+                            out.extend(orig.iter().copied());
+                        }
+                        _ => {}
+                    }
+                    for ch in n.children() {
+                        chars_of(ch, out);
+                    }
+                }
+            }
+            chars_of(l, &mut cands);
+            cands.sort();
+            cands.dedup();
+            for c in cands {
+                if let Some(ch) = char::from_u32(c) {
+                    if ch.escape_debug().count() == 1 {
+                        raw.push(c as i64);
+                    }
+                }
+            }
+        }
+        let reply_full = drv.ask(&format!("rt {mname} {style} | {} | {} | {}", join(&req), text_sec, join(&raw)));
+        let (reply, model_text) = match reply_full.split_once(" | ") {
+            Some((a, b)) => (a.to_string(), Some(b.to_string())),
+            None => (reply_full.clone(), None),
+        };
         if reply.starts_with("bad-request") {
             panic!("driver rejected the request: {reply}");
         }
@@ -311,6 +398,25 @@ impl C18 {
                     );
                 }
             }
+        }
+        if field(&reply, "mlex") != "1" && expr {
+            out.fail(Kind::ModelVsSpec, stream, "model lexer does not invert the model printer", reply.clone());
+        }
+        if field(&reply, "txt") != "1" {
+            let mt: String = model_text
+                .as_deref()
+                .unwrap_or("")
+                .split_ascii_whitespace()
+                .filter_map(|w| w.parse::<u32>().ok().and_then(char::from_u32))
+                .collect();
+            out.fail(
+                Kind::ImplVsModel,
+                stream,
+                "printed text differs from the model's rendering (layout or escapes)",
+                format!("real text:\n{text}\nmodel text:\n{mt}"),
+            );
+        } else {
+            out.tag("text:identical-to-model");
         }
         // Lean on the real text.
         match field(&reply, "lex") {
@@ -499,17 +605,88 @@ impl C18 {
             Err(_) => {}
         }
         // the model
+        // raw set for the exact comparison of the formatter's text: a character that Rust prints
+        // unescaped occurs literally in the real output, so the candidates are printable ASCII,
+        // the characters of the source and those of the real output
+        let mut raw: Vec<i64> = vec![];
+        {
+            let mut cands: Vec<char> = (0x20u8..0x7f).map(|b| b as char).collect();
+            cands.extend(text.chars());
+            if let Some(t) = &fmt_text {
+                cands.extend(t.chars());
+            }
+            cands.sort();
+            cands.dedup();
+            for ch in cands {
+                if ch.escape_debug().count() == 1 {
+                    raw.push(ch as i64);
+                }
+            }
+        }
+        let fe = match &f {
+            Ok(Ok(_)) => "O",
+            Ok(Err(_)) => "E",
+            Err(_) => "P",
+        };
         let reply = drv.ask(&format!(
-            "src | {} | {}",
+            "src {fe} | {} | {} | {}",
             cps(text),
             match &fmt_text {
                 Some(t) => cps(t),
                 None => "-".into(),
-            }
+            },
+            join(&raw)
         ));
         let secs: Vec<&str> = reply.split(" | ").collect();
-        if secs.len() != 3 {
+        if secs.len() != 5 {
             panic!("driver reply malformed: {reply}");
+        }
+        match secs[4].trim() {
+            "ftxt=0" => out.fail(
+                Kind::ImplVsModel,
+                stream_m,
+                format!("formatted text differs from the model's formatText (comment-free source){attr}"),
+                format!("format(s) = {fmt_text:?}"),
+            ),
+            "ftxt=1" => out.tag("model_format_text:identical"),
+            _ => {}
+        }
+        // token streams and lexer error classes
+        match caught(|| real_lex(text)) {
+            Err(p) => out.fail(Kind::ImplPanic, stream_t, format!("panic {}{attr}", panic_class(&p)), format!("lexer: {p}")),
+            Ok((toks, first_err)) => {
+                let l = secs[3].strip_prefix("L=").unwrap_or("");
+                if let Some(ints) = l.strip_prefix("ok") {
+                    out.tag("model_lex:ok");
+                    if let Some(e) = &first_err {
+                        out.fail(
+                            Kind::ImplVsModel,
+                            "lex_model",
+                            format!("model lexes the text, the real lexer reports {e}{attr}"),
+                            format!("model tokens: {ints}"),
+                        );
+                    } else if join(&toks) != ints.trim() {
+                        out.fail(
+                            Kind::ImplVsModel,
+                            "lex_model",
+                            format!("token streams differ{attr}"),
+                            format!("model: {}\nreal:  {}", ints.trim(), join(&toks)),
+                        );
+                    }
+                } else if let Some(cls) = l.strip_prefix("err ") {
+                    out.tag(format!("model_lex:err:{cls}"));
+                    if first_err.as_deref() != Some(cls.trim()) {
+                        out.fail(
+                            Kind::ImplVsModel,
+                            "lex_model",
+                            format!("first lexer error: model {cls}, real {}{attr}", first_err.clone().unwrap_or("none".into())),
+                            format!("real tokens: {}", join(&toks)),
+                        );
+                    }
+                } else {
+                    out.fail(Kind::ModelVsSpec, "lex_model", "model lexer ran out of fuel", l.to_string());
+                }
+            }
         }
         let check = |name: &str, m: &str, real: Option<Result<Vec<i64>, Vec<String>>>, out: &mut CaseOutcome| {
             let m = m.split_once('=').map(|x| x.1).unwrap_or("");
